@@ -1066,6 +1066,32 @@ class PyCdlib:
                                       dir_record)
                 offset += lenbyte
 
+                # The Rock Ridge entries in the continuation area (possibly the
+                # CL or SL entries) are part of the record, so read them before
+                # looking at what kind of record this is.
+                if new_record.rock_ridge is not None and new_record.rock_ridge.dr_entries.ce_record is not None:
+                    ce_record = new_record.rock_ridge.dr_entries.ce_record
+                    orig_pos = cdfp.tell()
+                    self._seek_to_extent(ce_record.bl_cont_area)
+                    cdfp.seek(ce_record.offset_cont_area, os.SEEK_CUR)
+                    con_block = cdfp.read(ce_record.len_cont_area)
+                    new_record.rock_ridge.parse(con_block, False,
+                                                new_record.rock_ridge.bytes_to_skip,
+                                                True, new_record.file_identifier())
+                    cdfp.seek(orig_pos)
+                    if not (dir_record.is_root and new_record.is_dot()):
+                        # The continuation area of the root 'dot' record holds
+                        # the ER entry; it always gets a block of its own when
+                        # extents are assigned, so it must not be offered to
+                        # other records as a block with free space.
+                        block = self.pvd.track_rr_ce_entry(ce_record.bl_cont_area,
+                                                           ce_record.offset_cont_area,
+                                                           ce_record.len_cont_area)
+                        new_record.rock_ridge.update_ce_block(block)
+                    # The version can only be inferred once the entries in the
+                    # continuation area (e.g. a 44-byte PX record) are known.
+                    rr = new_record.rock_ridge.rr_version
+
                 # Cache some properties of this record for later use.
                 is_symlink = new_record.is_symlink()
                 dots = new_record.is_dot() or new_record.is_dotdot()
@@ -1130,29 +1156,6 @@ class PyCdlib:
                         # size is wrong.  Set the lastbyte appropriately, which
                         # will eventually be used to fix the PVD size.
                         lastbyte = max(lastbyte, new_end)
-
-                if new_record.rock_ridge is not None and new_record.rock_ridge.dr_entries.ce_record is not None:
-                    ce_record = new_record.rock_ridge.dr_entries.ce_record
-                    orig_pos = cdfp.tell()
-                    self._seek_to_extent(ce_record.bl_cont_area)
-                    cdfp.seek(ce_record.offset_cont_area, os.SEEK_CUR)
-                    con_block = cdfp.read(ce_record.len_cont_area)
-                    new_record.rock_ridge.parse(con_block, False,
-                                                new_record.rock_ridge.bytes_to_skip,
-                                                True, new_record.file_identifier())
-                    cdfp.seek(orig_pos)
-                    if not (dir_record.is_root and new_record.is_dot()):
-                        # The continuation area of the root 'dot' record holds
-                        # the ER entry; it always gets a block of its own when
-                        # extents are assigned, so it must not be offered to
-                        # other records as a block with free space.
-                        block = self.pvd.track_rr_ce_entry(ce_record.bl_cont_area,
-                                                           ce_record.offset_cont_area,
-                                                           ce_record.len_cont_area)
-                        new_record.rock_ridge.update_ce_block(block)
-                    # The version can only be inferred once the entries in the
-                    # continuation area (e.g. a 44-byte PX record) are known.
-                    rr = new_record.rock_ridge.rr_version
 
                 self._set_rock_ridge(rr)
 
